@@ -159,6 +159,8 @@ def make_problem(spec):
         cons = lambda X: (np.sum(np.atleast_2d(X) ** 2, axis=1) - 2.0 * D) * 1e-9  # noqa: E731
     elif cname == "tinyhalf":
         cons = lambda X: (np.atleast_2d(X)[:, 0] - 1.0) * 1e-10  # noqa: E731
+    elif cname == "diag":      # a thin band along the diagonal: from a point on it every axis-parallel poll step longer than the band leaves it
+        cons = lambda X: (np.abs(np.atleast_2d(X)[:, 0] - np.atleast_2d(X)[:, -1]) > 0.05).astype(float)  # noqa: E731
     elif cname == "stripes":   # the box minus thin stripes: a lot of boundary, feasibility changes within a fraction of a mesh step
         cons = lambda X: (np.mod(np.atleast_2d(X)[:, 0] * 4.0, 1.0) < 0.1).astype(float)  # noqa: E731  (every other node of a 1/8 grid is infeasible)
     elif cname == "lattice":   # feasible only on a coarse lattice: ES populations collapse to few or zero survivors
@@ -188,6 +190,8 @@ def make_problem(spec):
         options["uncertainty_handling"] = True
         options["specify_target_noise"] = True
     options.update(spec.get("options", {}))
+    if spec.get("output_fcn") == "passive":      # a callback that only observes: it never asks for a stop
+        options["output_fcn"] = lambda x, state: False
     args = dict(x0=x0, lower_bounds=np.asarray(lb), upper_bounds=np.asarray(ub),
                 plausible_lower_bounds=np.asarray(plb), plausible_upper_bounds=np.asarray(pub))
     return fun, args, cons, options
